@@ -67,6 +67,11 @@ Next ==
               \* a decode that panics never delivers its picture: the background thread dies, the poll skips the failed join
               /\ Check(e.r # "panic", "C14", "DecodeLost", l, [site |-> IF Has(e, "site") THEN e.site ELSE "", n |-> Len(e.payload), tail |-> SubSeq(e.payload, IF Len(e.payload) > 12 THEN Len(e.payload) - 11 ELSE 1, Len(e.payload))])
               /\ Check(e.r # "ok" \/ Rectangular(e.w, e.h, e.len), "C14", "Rectangular", l, [w |-> e.w, h |-> e.h, len |-> e.len, payload |-> e.payload])
+              \* "consistent with any declared raster size": once a raster attribute has declared the height, the picture has exactly the
+              \* rows the design gives it (the declared number: data below it is clipped, missing rows are added) - wherever in the
+              \* payload the attribute stands
+              /\ LET m == Decode(e.payload) IN
+                 Check(~(m.ok /\ m.hset /\ e.r = "ok") \/ e.h = m.h, "C14", "DeclaredHeight", l, [declared |-> m.h, h |-> e.h, w |-> e.w, n |-> Len(e.payload), head |-> SubSeq(e.payload, 1, IF Len(e.payload) > 24 THEN 24 ELSE Len(e.payload))])
               /\ DecodeAgrees(Decode(e.payload), e)
               /\ UNCHANGED g
           [] e.ev = "fileload" ->      \* a file with k sixel pictures, loaded with Buffer::from_bytes: imgs = <<ticket, w, h, len>> of the image layers
